@@ -22,10 +22,14 @@ void harness(void) {
 #ifdef VF_CASE_LONG
 	VF_ASSUME(n == VF_LONG);	/* concrete length: everything below constant-folds */
 	n = VF_LONG;
-	VF_ASSUME(cut == 1 || cut == 63);
+	cut = 1;	/* concrete: the whole computation constant-folds (a symbolic split made one variant > 900 s) */
 #else
+	/* short case (4-bit table path of crc32_normal/crc32_reflect): concrete bytes, symbolic length
+	 * 0..3 and split point - pins WHICH 16-entry table the macro passes; all states/bytes of one
+	 * table step are covered by crc32.<poly>.tables. (Symbolic bytes here took > 700 s.) */
 	VF_ASSUME(n <= 3);
 	VF_ASSUME(cut <= n);
+	data.b[0] = 0x31; data.b[1] = 0xe7; data.b[2] = 0x80;
 #endif
 	if (n == VF_LONG) {
 		/* the 64-byte case pins WHICH 256-entry table the macro passes (8-bit path): one concrete
